@@ -809,4 +809,240 @@ theorem enter_start {g gv : Graph} {c : Nat} {M : Option Int} {sh : Shape} (hc :
     · simp only [hseen, Bool.false_eq_true, if_false]
       omega
 
+/-! ## the walk through the loop -/
+
+theorem notInC_test {g : Graph} {c n : Nat} (h : (g.node n).cls ≠ c) (ph : Phase) (dir : Dir) (uid : String) (tag wait : Nat) :
+    NotInC g c (.test n ph dir uid tag wait) := by
+  intro n' ph' dir' uid' tag' wait' e
+  cases e; exact h
+
+/-- the start of a test of another class is invisible to the invariant of class `c` -/
+theorem fr_startOther (g : Graph) (c w : Nat) (gv : Graph) (s : State) (n : Nat) (ph : Phase) (dir : Dir)
+    (hne : (g.node n).cls ≠ c) : Fr g c w s (startTest gv s n w ph dir).1 := by
+  have a1 : Fr g c w s { s with nextTag := s.nextTag + 1 } := Fr.quiet rfl rfl
+  by_cases hph : ph = .pre
+  · subst hph
+    rw [startTest_pre_fst]
+    have a2 : Fr g c w { s with nextTag := s.nextTag + 1 } (({ s with nextTag := s.nextTag + 1 } : State).setWd w (fun d => { d with
+        preResults := d.preResults ++ [phOf (s.wd w).preName s.nextTag],
+        pc := .test n .pre dir (uidOf "0" (s.wd w).preResults.length) s.nextTag 0 })) :=
+      fr_setWd g c w _ _ (fun _ h => h) (fun _ _ => notInC_test hne _ _ _ _ _)
+    exact a1.trans a2
+  · rw [startTest_nonpre_fst gv s n w ph dir hph]
+    have a2 : Fr g c w { s with nextTag := s.nextTag + 1 } (({ s with nextTag := s.nextTag + 1 } : State).setNd n
+        (fun d => { d with results := d.results ++ [phOf (gv.node n).name s.nextTag] })) :=
+      fr_setNd g c w _ n _ (fun h => absurd h hne) (fun _ => Nat.le_refl _) (fun h => absurd h hne) (fun h => absurd h hne)
+    have a3 : Fr g c w (({ s with nextTag := s.nextTag + 1 } : State).setNd n
+        (fun d => { d with results := d.results ++ [phOf (gv.node n).name s.nextTag] }))
+        ((({ s with nextTag := s.nextTag + 1 } : State).setNd n
+        (fun d => { d with results := d.results ++ [phOf (gv.node n).name s.nextTag] })).setWd w
+        (fun d => { d with pc := .test n ph dir (uidOf (gv.node n).pfx (sharedResults gv s n).length) s.nextTag 0 })) :=
+      fr_setWd g c w _ _ (fun _ h => h) (fun _ _ => notInC_test hne _ _ _ _ _)
+    exact (a1.trans a2).trans a3
+
+/-- outcome of a piece of the loop: it started no test of the class, or the invariant holds for all workers and
+the worker is suspended in the test it started -/
+def WalkOK (g : Graph) (c : Nat) (M : Option Int) (sh : Shape) (w : Nat) (s : State) (r : Step) : Prop :=
+  Fr g c w s r.1 ∨ (BInv g c M sh r.1 All ∧ r.2.2 = Flow.suspend)
+
+theorem traverseNode_b {g gv : Graph} {c : Nat} {M : Option Int} {sh : Shape} (hc : BClass g c M sh) (hgv : SameNodes gv g)
+    (hwf : GraphWF gv) (s : State) (w next prev : Nat) (dir : Dir) (hw : w < g.workers.length)
+    (b : BInv g c M sh s (Ex w)) (hnext : next < g.nodes.length)
+    (hrel : (g.node next).cls = c → g.idIn w next = true) :
+    WalkOK g c M sh w s (traverseNode gv s w next prev dir) := by
+  unfold traverseNode
+  by_cases hocc : isOccupied gv s next w = true
+  · simp only [hocc, if_true]
+    exact Or.inl (afterTraverse_fr hc hgv hwf s w next prev dir hrel)
+  · simp only [hocc, Bool.false_eq_true, if_false]
+    have hocc' : isOccupied gv s next w = false := by simpa using hocc
+    have h0 : Fr g c w s (pullLocations gv (s.setNd next (fun d => { d with started := some w })) next) :=
+      (fr_mark g c w s next (some w) hrel).trans (fr_pullLocations g c w gv _ next)
+    cases hd : runDecision gv (pullLocations gv (s.setNd next (fun d => { d with started := some w })) next) next w with
+    | error e => exact Or.inl h0
+    | ok r =>
+      obtain ⟨run, s1, evs⟩ := r
+      have h1 : Fr g c w s s1 := h0.trans (fr_runDecision g c w gv _ next w run s1 evs hd)
+      dsimp only
+      by_cases hrun : run = true
+      · subst hrun
+        simp only [if_true]
+        by_cases hroot : (gv.node next).objectRoot = true
+        · simp only [hroot, if_true]
+          have hne : (g.node next).cls ≠ c := by
+            intro hcls
+            rw [hgv.objectRoot, (hc.node next hnext hcls).2.1] at hroot
+            cases hroot
+          left
+          show Fr g c w s (startTest gv _ next w .pre dir).1
+          refine h1.trans (Fr.trans ?_ (fr_startOther g c w gv _ next .pre dir hne))
+          apply fr_setWd
+          · exact fun _ h => h
+          · exact fun _ h => h
+        · simp only [hroot, Bool.false_eq_true, if_false]
+          by_cases hcls : (g.node next).cls = c
+          · right
+            exact ⟨enter_start hc hgv dir hw b hnext hcls (hrel hcls) hocc' hd, by simp only [startTest_flow]⟩
+          · left
+            show Fr g c w s (startTest gv s1 next w .plain dir).1
+            exact h1.trans (fr_startOther g c w gv s1 next .plain dir hcls)
+      · simp only [hrun, Bool.false_eq_true, if_false]
+        exact Or.inl (h1.trans ((fr_finishTraverse g c w s1 next hrel).trans (afterTraverse_fr hc hgv hwf _ w next prev dir hrel)))
+
+theorem iter_b {g gv : Graph} {c : Nat} {M : Option Int} {sh : Shape} (hc : BClass g c M sh) (hgv : SameNodes gv g)
+    (hwf : GraphWF gv) (s : State) (w : Nat) (hw : w < g.workers.length) (b : BInv g c M sh s (Ex w)) :
+    WalkOK g c M sh w s (iter gv s w) := by
+  have hrootlt : g.root < g.nodes.length := by rw [← hgv.root, ← hgv.len]; exact hwf.root_lt
+  unfold iter
+  dsimp only
+  split
+  · split
+    · exact Or.inl (fr_setWd g c w s _ (fun _ _ x hx => by simp at hx) (fun _ _ => by intro _ _ _ _ _ _ e; cases e))
+    · exact Or.inl (Fr.refl g c w s)
+  · cases hl : (s.wd w).path.getLast? with
+    | none => exact Or.inl (Fr.refl g c w s)
+    | some next =>
+      obtain ⟨hnext, hrel⟩ := b.path w next (List.mem_of_getLast? hl)
+      dsimp only
+      split
+      · cases hp : pickChild gv s next w with
+        | none => exact Or.inl (Fr.refl g c w s)
+        | some r => obtain ⟨x, s2⟩ := r; exact Or.inl (fr_pickChild hc hgv hwf s next w x s2 hp)
+      · split
+        · -- bounce
+          left
+          dsimp only
+          refine Fr.trans ?_ (fr_pathRoot hc hrootlt w _ _ (fun _ => by rw [hgv.root]) (fun _ _ => by intro _ _ _ _ _ _ e; cases e))
+          split
+          · refine Fr.trans ?_ (fr_setWd g c w _ _ (fun _ h => h) (fun _ h => h))
+            split
+            · exact fr_setNd g c w s next _ (fun _ _ => rfl) (fun _ => Nat.le_succ _) (fun _ => Or.inl (fun _ => rfl))
+                (fun _ => Or.inl (fun _ => rfl))
+            · exact Fr.refl g c w s
+          · exact fr_setWd g c w _ _ (fun _ h => h) (fun _ h => h)
+        · split
+          · split
+            · exact traverseNode_b hc hgv hwf s w next _ .up hw b hnext hrel
+            · cases hp : pickParent gv s next w with
+              | none => exact Or.inl (Fr.refl g c w s)
+              | some r => obtain ⟨x, s2⟩ := r; exact Or.inl (fr_pickParent hc hgv hwf s next w x s2 hp)
+          · split
+            · split
+              · cases hp : pickParent gv s next w with
+                | none => exact Or.inl (Fr.refl g c w s)
+                | some r => obtain ⟨x, s2⟩ := r; exact Or.inl (fr_pickParent hc hgv hwf s next w x s2 hp)
+              · exact traverseNode_b hc hgv hwf s w next _ .down hw b hnext hrel
+            · exact Or.inl (Fr.refl g c w s)
+
+theorem fr_reveal (g : Graph) (c w : Nat) (s : State) (f v : Nat) : Fr g c w s (reveal g s f v) := by
+  unfold reveal
+  dsimp only
+  split <;> exact Fr.quiet rfl rfl
+
+theorem fr_prepare (g : Graph) (c w : Nat) (s : State) : Fr g c w s (prepare g s w) := by
+  unfold prepare
+  dsimp only
+  cases (s.wd w).path.getLast? with
+  | none => exact Fr.refl g c w s
+  | some next =>
+    dsimp only
+    have h0 : Fr g c w s (s.setWd w (fun d => { d with unexplored := !(unexploredNodes (vis g s) s).isEmpty })) :=
+      fr_setWd g c w s _ (fun _ h => h) (fun _ h => h)
+    split
+    · exact h0.trans (fr_reveal g c w _ next w)
+    · exact h0
+
+theorem iterL_b {g : Graph} {c : Nat} {M : Option Int} {sh : Shape} (hc : BClass g c M sh) (hwf : GraphWF g)
+    (s : State) (w : Nat) (hw : w < g.workers.length) (b : BInv g c M sh s (Ex w)) :
+    WalkOK g c M sh w s (iterL g s w) := by
+  unfold iterL
+  split
+  · exact iter_b hc (sameNodes_vis g s) (hwf.vis s) s w hw b
+  · dsimp only
+    have h0 := fr_prepare g c w s
+    rcases iter_b hc (sameNodes_vis g (prepare g s w)) (hwf.vis _) (prepare g s w) w hw (b.fr hc hw h0) with h | h
+    · exact Or.inl (h0.trans h)
+    · exact Or.inr h
+
+/-- a worker outside the tests of the class needs no exemption -/
+theorem BInv.close {g : Graph} {c w : Nat} {M : Option Int} {sh : Shape} {s : State} (b : BInv g c M sh s (Ex w))
+    (h : NotInC g c (s.wd w).pc) : BInv g c M sh s All where
+  nodesLen := b.nodesLen
+  workersLen := b.workersLen
+  path := b.path
+  finOwn := b.finOwn
+  infl := fun u _ n ph dir uid tag wait hpc hn => by
+    by_cases hu : u = w
+    · subst hu; exact absurd hn (h n ph dir uid tag wait hpc)
+    · exact b.infl u hu n ph dir uid tag wait hpc hn
+  resOwn := b.resOwn
+  p1 := fun j hj hjc hne => by
+    rcases b.p1 j hj hjc hne with ⟨u, tag, _, hpc, hres⟩ | h'
+    · exact Or.inl ⟨u, tag, trivial, hpc, hres⟩
+    · exact Or.inr h'
+  budget := b.budget
+
+theorem BInv.open {g : Graph} {c : Nat} {M : Option Int} {sh : Shape} {s : State} (b : BInv g c M sh s All) (w : Nat)
+    (h : NotInC g c (s.wd w).pc) : BInv g c M sh s (Ex w) where
+  nodesLen := b.nodesLen
+  workersLen := b.workersLen
+  path := b.path
+  finOwn := b.finOwn
+  infl := fun u _ n ph dir uid tag wait hpc hn => b.infl u trivial n ph dir uid tag wait hpc hn
+  resOwn := b.resOwn
+  p1 := fun j hj hjc hne => by
+    rcases b.p1 j hj hjc hne with ⟨u, tag, _, ⟨ph, dir, uid, wait, hpc⟩, hres⟩ | h'
+    · refine Or.inl ⟨u, tag, ?_, ⟨ph, dir, uid, wait, hpc⟩, hres⟩
+      intro hu; subst hu
+      exact h j ph dir uid tag wait hpc hjc
+    · exact Or.inr h'
+  budget := b.budget
+
+theorem notInC_of_nonTest {g : Graph} {c : Nat} {pc : Pc} (h : pc.isTest = false) : NotInC g c pc := by
+  intro n ph dir uid tag wait e
+  rw [e] at h; cases h
+
+theorem runLoop_b {g : Graph} {c : Nat} {M : Option Int} {sh : Shape} (hc : BClass g c M sh) (hwf : GraphWF g)
+    (w : Nat) (hw : w < g.workers.length) (fuel : Nat) (s : State) (evs : List Event) (b : BInv g c M sh s (Ex w))
+    (h : NotInC g c (s.wd w).pc ∨ 0 < fuel) : BInv g c M sh (runLoop g w fuel s evs).1 All := by
+  induction fuel generalizing s evs with
+  | zero =>
+    rcases h with h | h
+    · exact b.close h
+    · omega
+  | succ fuel ih =>
+    unfold runLoop
+    dsimp only
+    have h0 : Fr g c w s (s.setWd w (fun d => { d with pc := .loop })) :=
+      fr_setWd g c w s _ (fun _ h => h) (fun _ _ => notInC_of_nonTest rfl)
+    have b0 := b.fr hc hw h0
+    have hpc0 : NotInC g c ((s.setWd w (fun d => { d with pc := .loop })).wd w).pc := by
+      rcases wd_setWd_cases s w (fun d => { d with pc := .loop }) with ⟨h', hl⟩ | ⟨_, h'⟩
+      · rw [h', wd_default_of_ge s w hl]; exact notInC_of_nonTest rfl
+      · rw [h']; exact notInC_of_nonTest rfl
+    have hw0 := iterL_b hc hwf _ w hw b0
+    split
+    · next s1 e heq =>
+      rw [heq] at hw0
+      rcases hw0 with h1 | ⟨_, h1⟩
+      · exact ih s1 _ (b0.fr hc hw h1) (Or.inl (h1.pc hpc0))
+      · cases h1
+    · next s1 e heq =>
+      rw [heq] at hw0
+      rcases hw0 with h1 | ⟨h1, _⟩
+      · exact (b0.fr hc hw h1).close (h1.pc hpc0)
+      · exact h1
+    · next s1 e heq =>
+      rw [heq] at hw0
+      rcases hw0 with h1 | ⟨_, h1⟩
+      · exact (b0.fr hc hw h1).close (h1.pc hpc0)
+      · cases h1
+    · next s1 e what heq =>
+      rw [heq] at hw0
+      rcases hw0 with h1 | ⟨_, h1⟩
+      · have h2 : Fr g c w s1 (s1.setWd w (fun d => { d with pc := .failed })) :=
+          fr_setWd g c w s1 _ (fun _ h => h) (fun _ _ => notInC_of_nonTest rfl)
+        exact ((b0.fr hc hw h1).fr hc hw h2).close (h2.pc (h1.pc hpc0))
+      · cases h1
+
 end I2N.Trav
